@@ -96,6 +96,7 @@ class CoreMixin:
         self.solver_calls = 0
         self.consts = {}
         self.call_ord = {}
+        self.unit_syms = set()
 
     # ---- fresh symbols
     def fresh(self, base, key):
@@ -191,6 +192,9 @@ class CoreMixin:
         st.heap[fid] = z3.Store(self.field(st, fid), to_ref(obj), coerce(val, key))
 
     def arr_len(self, st, obj, axis=0):
+        if obj.view is not None:
+            base, how, _ = obj.view
+            return self.arr_len(st, base, 0 if how == 'col' else 1)
         if obj.ndim == 1:
             return z3.Select(self.field(st, '$len'), obj.ref)
         return z3.Select(self.field(st, '$n%d' % axis), obj.ref)
@@ -199,6 +203,9 @@ class CoreMixin:
         return '$d%d:%s' % (obj.ndim, obj.elem)
 
     def arr_read(self, st, obj, idx):
+        if obj.view is not None:
+            base, how, fixed = obj.view
+            return self.arr_read(st, base, [idx[0], fixed] if how == 'col' else [fixed, idx[0]])
         data = z3.Select(self.field(st, self.arr_fid(obj)), obj.ref)
         idx = [to_int(i) for i in idx]
         term = z3.Select(data, *idx)
@@ -207,6 +214,9 @@ class CoreMixin:
         return term
 
     def arr_write(self, st, obj, idx, val):
+        if obj.view is not None:
+            base, how, fixed = obj.view
+            return self.arr_write(st, base, [idx[0], fixed] if how == 'col' else [fixed, idx[0]], val)
         fid = self.arr_fid(obj)
         f = self.field(st, fid)
         data = z3.Select(f, obj.ref)
